@@ -109,15 +109,15 @@ var props = []*PropDef{
 	},
 	{
 		ID:     "C08",
-		Level:  "other",
-		Funcs:  append([]string{"twooffive.AddCheckSum", "twooffive.EncodeWithColor", "twooffive.Encode"}, base1D...),
+		Funcs:  append([]string{"twooffive.AddCheckSum", "twooffive.EncodeWithColor", "twooffive.Encode", "codabar.EncodeWithColor", "codabar.Encode"}, base1D...),
 		Tables: []string{"codabar/tables", "twooffive/tables"},
 		Harness: []Harness{
-			{Pkg: "codabar", File: "c08_codabar_test.go", Run: "^TestVerifC08Codabar$", Bound: boundedNote + "acceptance = [ABCD][0-9-$:/.+]*[ABCD] and round trip through onedspec.CodabarDecode (the regexp engine is outside the proof subset)"},
+			{Pkg: "codabar", File: "c08_codabar_test.go", Run: "^TestVerifC08Codabar$", Bound: "cross-check of the Codabar proof and of the ASSUMED regexp contract on the running code: acceptance = [ABCD][0-9-$:/.+]*[ABCD] and round trip through onedspec.CodabarDecode"},
 			{Pkg: "twooffive", File: "c08_twooffive_test.go", Run: "^TestVerifC08TwoOfFive$", Bound: "cross-check of the 2 of 5 proof: both variants through onedspec.TwoOfFiveDecodeLenient, AddCheckSum against the 3-1 weighted sum"},
 		},
-		Assumptions: []string{asmBitlist, asmUTF8, "2 of 5: inputs of at most 50 000 000 bytes (BitList capacity bound of the contracts)", "Codabar: regexp validation and the assembly loop are NOT under contract: bounded stand-in"},
-		Note:        "2 of 5 (both variants) [P], for every input: EncodeWithColor/Encode accept exactly the non-empty digit strings (interleaved: of even length); the result carries text, kind, colours and, module by module, the standard's symbol (start, per digit five bars of width 3/1 by the 1-2-4-7-parity code with narrow spaces resp. per pair bars and spaces interleaved, stop) - loop invariants over the real loop with the pending-rune pointer; AddCheckSum returns content + the digit that makes the 3-1 weighted sum (recursive spec function) a multiple of ten and refuses exactly empty / non-digit input. [T] Codabar patterns, 2 of 5 tables against the standards; [P] image type. Codabar assembly and validation: bounded.",
+		Assumptions: []string{asmBitlist, asmUTF8, "inputs of at most 50 000 000 (2 of 5) / 90 000 000 (Codabar) bytes (BitList capacity bound of the contracts)",
+			"Codabar: package regexp is outside the verified code; ASSUMED contract: the only pattern compiled is `[ABCD][0123456789\\-\\$\\:/\\.\\+]*[ABCD]$` (checked: precondition of regexp.Compile) and ReplaceAllString(s, \"!\") == \"!\" iff s as a whole matches it or s == \"!\"; cross-checked on the running code by the bounded stand-in"},
+		Note: "2 of 5 (both variants) [P], for every input: EncodeWithColor/Encode accept exactly the non-empty digit strings (interleaved: of even length); the result carries text, kind, colours and, module by module, the standard's symbol (start, per digit five bars of width 3/1 by the 1-2-4-7-parity code with narrow spaces resp. per pair bars and spaces interleaved, stop) - loop invariants over the real loop with the pending-rune pointer; AddCheckSum returns content + the digit that makes the 3-1 weighted sum (recursive spec function) a multiple of ten and refuses exactly empty / non-digit input. Codabar [P], for every input: accepted exactly for start letter A-D, data characters, stop letter A-D (given the assumed regexp contract); the result carries text, kind, colours, and every character's modules (seven elements, narrow 1 / wide 2, from the standard's element table) at the position given by the recursive offset function, separated by narrow spaces. [T] Codabar patterns, 2 of 5 tables against the standards; [P] image type.",
 	},
 	{
 		ID: "C09",
@@ -143,7 +143,7 @@ var props = []*PropDef{
 		Level:  "other",
 		Unwind: []*Unwinder{unwEAN, unwPDF, unwAztec, unwDM, unwSelect, unwQRBlocks},
 		Funcs: append(append([]string{}, bitlistFuncs...), "utils.(*GaloisField).Multiply", "utils.(*GaloisField).Divide", "utils.(*GaloisField).Invers",
-			"twooffive.EncodeWithColor", "twooffive.Encode", "twooffive.AddCheckSum", "datamatrix.addPadding"),
+			"twooffive.EncodeWithColor", "twooffive.Encode", "twooffive.AddCheckSum", "codabar.EncodeWithColor", "codabar.Encode", "datamatrix.addPadding", "datamatrix.encodeText"),
 		Harness: []Harness{
 			{Pkg: "qr", File: "c01_qr_test.go", Run: "^TestVerifC10QR$", Bound: boundedNote + "no panic, result xor error, accept iff expressible in the mode and within version-40 capacity"},
 			{Pkg: "datamatrix", File: "c02_dm_test.go", Run: "^TestVerifC10DM$", Bound: boundedNote + "accept iff <= 1558 ASCII-encodation codewords"},
@@ -156,11 +156,11 @@ var props = []*PropDef{
 			{Pkg: "twooffive", File: "c08_twooffive_test.go", Run: "^TestVerifC10TwoOfFive$", Bound: boundedNote},
 		},
 		Assumptions: []string{asmBitlist, asmStages, asmUTF8, "the zero-annotation no-panic sweep (bounds, nil, division, slice, conversion, explicit panic obligations) is discharged for the functions executed by the unwinding families (EAN completely; PDF417, Aztec drawing, DataMatrix render/ECC per configuration) and for the utils functions under contract; the string-processing front ends of the other symbologies are covered by the bounded stand-ins only"},
-		Note:        "Safety obligations (index, slice, nil, division by zero, conversion, explicit panic, overflow) generated for every instruction executed by the [C] families and the [P] functions are all discharged; exact acceptance is proved for EAN and 2 of 5 (all inputs), PDF417 (by codeword count), the QR/DataMatrix/Aztec size selections; bounded elsewhere.",
+		Note:        "Safety obligations (index, slice, nil, division by zero, conversion, explicit panic, overflow) generated for every instruction executed by the [C] families and the [P] functions are all discharged; exact acceptance is proved for EAN, 2 of 5 and Codabar (all inputs; Codabar under the assumed regexp contract), PDF417 (by codeword count), the QR/DataMatrix/Aztec size selections; bounded elsewhere.",
 	},
 	{
 		ID:     "C11",
-		Funcs:  append([]string{"twooffive.EncodeWithColor", "twooffive.Encode"}, base1D...),
+		Funcs:  append([]string{"twooffive.EncodeWithColor", "twooffive.Encode", "codabar.EncodeWithColor", "codabar.Encode"}, base1D...),
 		Unwind: []*Unwinder{unwEAN, unwAztec, unwDM, unwPDF, unwQR},
 		// of the aztec family only the obligations about the result object's accessors belong here
 		// (the empty-payload defect F6 shows up in the mode message: C03/C10)
